@@ -24,6 +24,7 @@ EXPLANATION = (
     "get_cursor_coords answers); (7) POSBOUND: hit-test bounds compare a coordinate with an extent half-open (`row >= maxrow - bottom`, never `>`); (5) every GridFlow entry point rebuilds the memoised display widget for "
     "the size it was asked about before delegating to it."
     ' Added after seed round 3: (9) ACCUM - the row offsets of Pile.move_cursor_to_coords / mouse_event and ListBox.mouse_event advance for every item passed; (10) Edit.move_cursor_to_coords compares the requested row only with rows derived from the layout (position_coords / get_line_translation).'
+    ' Round 4: (11) OPTCALL (see C08.13); C09.10 now requires both bounds of the requested row and reports a missing one.'
 )
 NOT_DECIDED = (
     "Agreement with the rendered canvas cursor (needs canvas semantics), loops of Pile/Columns/ListBox that accumulate offsets (equivalence of different loop shapes is not syntactic), "
